@@ -8,11 +8,10 @@ From TP Require Import Base.PyVal Fields.FieldAst Fields.SetChain Struct.Shapes 
 Lemma pickle_rt_pol_safe sp c x :
   state_policy_safe sp = true -> pickle_rt_pol sp c x = Some (pickle_rt c x).
 Proof.
-  destruct sp as [f g v]. destruct f, g, v; simpl; intro H; try discriminate H. reflexivity.
+  destruct sp as [f g v i r]. destruct f, g, v, i, r; simpl; intro H; try discriminate H. reflexivity.
 Qed.
 
-(* hence the copy is equal to the original, with the same string, whenever only declared fields are stored
-   and no name is None-marked *)
+(* hence the copy is equal to the original, with the same string, whenever only declared fields are stored *)
 Lemma pickle_pol_eq num_str str_repr enum_vrepr sp c undef x :
   state_policy_safe sp = true -> pickle_safe c x = true ->
   exists y, pickle_rt_pol sp c x = Some y /\
@@ -31,9 +30,37 @@ Definition gs_class : classdef :=
 
 Lemma getstate_truthy_refuted :
   exists x y, pickle_safe gs_class x = true /\
-              pickle_rt_pol {| sp_fields := GsAllFields; sp_filter := GsTruthy; sp_value := GsFieldValue |} gs_class x = Some y /\
+              pickle_rt_pol {| sp_fields := GsAllFields; sp_filter := GsTruthy; sp_value := GsFieldValue;
+                               sp_internal := GsNonesKept; sp_restore := GsRestoreInstantiated |} gs_class x = Some y /\
               inst_eq gs_class true y x = false.
 Proof.
   exists {| i_cls := s2p "A"; i_attrs := [(s2p "n", PNum (NInt 0))]; i_nones := Some []; i_live := true |}.
   eexists. split; [vm_compute; reflexivity |]. split; [reflexivity |]. vm_compute. reflexivity.
+Qed.
+
+(* a state without `_none_fields` loses the None-marked names (the unpickled copy is unequal to the original);
+   rebuilding without __setstate__ loses `_instantiated` (the unpickled copy is not live: an immutable class
+   accepts assignment, __validate__ no longer runs) *)
+Lemma state_without_nones_refuted :
+  exists x y, pickle_safe gs_class x = true /\
+              pickle_rt_pol {| sp_fields := GsAllFields; sp_filter := GsInDict; sp_value := GsFieldValue;
+                               sp_internal := GsNoInternal; sp_restore := GsRestoreInstantiated |} gs_class x = Some y /\
+              inst_eq gs_class true y x = false.
+Proof.
+  exists {| i_cls := s2p "A"; i_attrs := []; i_nones := Some [s2p "n"]; i_live := true |}.
+  eexists. split; [vm_compute; reflexivity |]. split; [reflexivity |]. vm_compute. reflexivity.
+Qed.
+
+Lemma default_restore_not_live :
+  forall sp c x y, sp_restore sp = GsRestoreDefault -> pickle_rt_pol sp c x = Some y -> i_live y = false.
+Proof.
+  intros sp c x y R. unfold pickle_rt_pol, restored_internals. rewrite R.
+  destruct (sp_fields sp), (sp_value sp), (sp_internal sp), (sp_filter sp); intro H; inversion H; reflexivity.
+Qed.
+
+Lemma safe_restore_live :
+  forall sp c x y, state_policy_safe sp = true -> pickle_rt_pol sp c x = Some y ->
+                   i_live y = true /\ nones_list y = nones_list x.
+Proof.
+  intros sp c x y S H. rewrite (pickle_rt_pol_safe sp c x S) in H. inversion H. split; reflexivity.
 Qed.
